@@ -137,7 +137,11 @@ func genC09(r *Rand, tier string, ord int) *Trial {
 			q.Seqs[0] = tailSNPs(r, ref, string(b))
 		}
 	}
-	c := Case{Cmd: "topranking", Files: map[string]string{"ref": ">ref\n" + ref + "\n", "query": q.FASTA(genLayout(r)), "target": tg.FASTA(genLayout(r))}}
+	layQ, layT := genLayout(r), genLayout(r)
+	if sub == "generated-wide" {
+		layQ, layT = wideLayout(r), wideLayout(r)
+	}
+	c := Case{Cmd: "topranking", Files: map[string]string{"ref": ">ref\n" + ref + "\n", "query": q.FASTA(layQ), "target": tg.FASTA(layT)}}
 	c.Opts = genTROpts(r, tg.Names)
 	c.Opts.Threads = 1
 	t := &Trial{Kind: kind, Case: c, Params: map[string]string{}}
